@@ -115,7 +115,7 @@ func run(r *evid.Run) {
 		if !r.Quick() {
 			spaces[1].wktMasks = allMasks(3)
 			spaces[1].filterWkt = map[int]bool{0: true, 1: true, 2: true, 4: true, 5: true, 7: true}
-			spaces = append(spaces, reqSpace{n: 4, dirs: xyz, wktMasks: []int{0, 1, 8, 15}, dagClass: "monotone"})
+			spaces = append(spaces, reqSpace{n: 4, dirs: xyz, wktMasks: []int{0, 1, 15}, dagClass: "monotone"})
 		}
 		if os.Getenv("VERIF_C17_A_SMALL") != "" { // debugging aid for mutant runs: a subset of the quick space
 			spaces = []reqSpace{spaces[0], {n: 3, dirs: xyz, wktMasks: []int{0, 5}, filterWkt: map[int]bool{5: true}}}
